@@ -45,6 +45,14 @@ def variants_for(cls, fault, world, target):
         opts = ["quant_in_qualitative"] + (["quant_in_ordinal"] if "ord" in kinds or True else [])
     if fault == "X1" and target == "transform":
         opts = ["ndarray", "list", "series", "dict"]
+    # the dev sample of a carver is validated like the training sample: same fault classes on it
+    if cls in worlds.CARVERS and world.get("dev") and target == "fit":
+        opts = opts + {
+            "T1": ["nan_cell_dev"],
+            "T3": ["other_labels_dev", "shorter_dev"],
+            "X1": ["ndarray_dev", "list_dev"],
+            "Y1": ["list_dev", "ndarray_dev"],
+        }.get(fault, [])
     return opts
 
 
@@ -90,6 +98,31 @@ def mutate(sess, fault, variant, op, X, y, kwargs):
     feats = world["features"]
     desc = {"fault": fault, "variant": variant}
     ctor = None
+    if variant.endswith("_dev") and fault in ("T1", "T3", "X1", "Y1"):
+        # same fault class, injected into the dev sample handed to a carver's fit
+        if "X_dev" not in kwargs:
+            kwargs = {"X_dev": sess.Xd.copy(deep=True), "y_dev": sess.yd.copy(deep=True)}
+        xd, yd = kwargs["X_dev"], kwargs["y_dev"]
+        posd = op["pos"] % max(1, len(xd))
+        if variant == "nan_cell_dev":
+            yd = yd.astype("float64") if yd.dtype.kind in "if" else yd.astype("object")
+            yd.iloc[posd] = np.nan
+        elif variant == "other_labels_dev":
+            if yd.index.dtype.kind in "iu":
+                yd = pd.Series(yd.values, index=yd.index + 100000, name=yd.name)
+            else:
+                yd = pd.Series(yd.values, index=[f"zz{lab}" for lab in yd.index], name=yd.name)
+        elif variant == "shorter_dev":
+            yd = yd.iloc[:-1]
+        elif fault == "X1" and variant == "ndarray_dev":
+            xd = xd.values
+        elif fault == "X1" and variant == "list_dev":
+            xd = xd.values.tolist()
+        elif fault == "Y1" and variant == "list_dev":
+            yd = yd.tolist()
+        elif fault == "Y1" and variant == "ndarray_dev":
+            yd = yd.values
+        return X, y, {"X_dev": xd, "y_dev": yd}, None, desc
     if fault == "T1":
         y = y.astype("float64") if y.dtype.kind in "if" else y.astype("object")
         y.iloc[pos] = np.nan
@@ -261,6 +294,8 @@ def bad_call(sess, op, step):
     if fault == "X2dev" and not kwargs:
         kwargs = {"X_dev": sess.Xd.copy(deep=True), "y_dev": sess.yd.copy(deep=True)}
     opts = variants_for(cls, fault, world, target)
+    if reloaded:
+        opts = [o for o in opts if not o.endswith("_dev")]
     variant = opts[op["variant"] % len(opts)]
     if phase == "fitted":
         if sess.live is None:
